@@ -668,6 +668,14 @@ impl<'a> Parser<'a> {
     fn parse_enum_value_definition(&mut self) -> ParseResult<EnumValueDefinition> {
         self.parse_optional_description();
         let name = self.parse_identifier()?;
+        // EnumValue : Name but not `true`, `false` or `null`
+        if matches!(self.source(&name.token), "true" | "false" | "null") {
+            self.record_error(Diagnostic::error(
+                "An enum value cannot be named `true`, `false` or `null`",
+                Location::new(self.source_location, name.span),
+            ));
+            return Err(());
+        }
         let directives = self.parse_constant_directives()?;
         Ok(EnumValueDefinition { name, directives })
     }
